@@ -71,6 +71,12 @@ func main() {
 	writeIfChanged(genPath, gen)
 	replace[filepath.Join(*repo, "zz_verif_corpus_gen.go")] = genPath
 
+	// dicttls table pairs discovered from the current tree
+	dgen := genDictPairs(*repo)
+	dgenPath := filepath.Join(*out, "zz_verif_dictpairs_gen.go")
+	writeIfChanged(dgenPath, dgen)
+	replace[filepath.Join(*repo, "dicttls", "zz_verif_dictpairs_gen.go")] = dgenPath
+
 	writeOverlay(filepath.Join(*out, "A.json"), replace)
 
 	// variant B
@@ -429,6 +435,59 @@ func genCorpus(repo string) []byte {
 	b.WriteString("// VerifHelloIDs lists every Hello* ClientHelloID variable of this tree.\nvar VerifHelloIDs = []VerifNamedID{\n")
 	for _, n := range names {
 		fmt.Fprintf(&b, "\t{%q, &%s},\n", n, n)
+	}
+	b.WriteString("}\n")
+	return []byte(b.String())
+}
+
+// genDictPairs lists every Dict<X>ValueIndexed table of package dicttls with its
+// Dict<X>NameIndexed sibling (nil if there is none).
+func genDictPairs(repo string) []byte {
+	dir := filepath.Join(repo, "dicttls")
+	ents, err := os.ReadDir(dir)
+	if err != nil {
+		die("read dicttls: %v", err)
+	}
+	vars := map[string]bool{}
+	for _, e := range ents {
+		if !strings.HasSuffix(e.Name(), ".go") || strings.HasSuffix(e.Name(), "_test.go") {
+			continue
+		}
+		f, err := parser.ParseFile(token.NewFileSet(), filepath.Join(dir, e.Name()), nil, 0)
+		if err != nil {
+			die("parse %s: %v", e.Name(), err)
+		}
+		for _, d := range f.Decls {
+			if gd, ok := d.(*ast.GenDecl); ok && gd.Tok == token.VAR {
+				for _, sp := range gd.Specs {
+					for _, id := range sp.(*ast.ValueSpec).Names {
+						vars[id.Name] = true
+					}
+				}
+			}
+		}
+	}
+	var names []string
+	for v := range vars {
+		if strings.HasPrefix(v, "Dict") && strings.HasSuffix(v, "ValueIndexed") {
+			names = append(names, v)
+		}
+	}
+	sort.Strings(names)
+	if len(names) == 0 {
+		die("no Dict*ValueIndexed tables found")
+	}
+	var b strings.Builder
+	b.WriteString("// Code generated by /verif/tools/vrewrite. DO NOT EDIT.\n\npackage dicttls\n\n")
+	b.WriteString("// VerifDictPair is a value-indexed table with its name-indexed sibling (nil if none).\ntype VerifDictPair struct {\n\tName string\n\tValueIndexed any\n\tNameIndexed any\n}\n\n")
+	b.WriteString("var VerifDictPairs = []VerifDictPair{\n")
+	for _, v := range names {
+		base := strings.TrimSuffix(v, "ValueIndexed")
+		sib := "nil"
+		if vars[base+"NameIndexed"] {
+			sib = base + "NameIndexed"
+		}
+		fmt.Fprintf(&b, "\t{%q, %s, %s},\n", strings.TrimPrefix(base, "Dict"), v, sib)
 	}
 	b.WriteString("}\n")
 	return []byte(b.String())
